@@ -41,6 +41,7 @@ CALLRS = 'starlark_syntax/src/syntax/call.rs'
 COMPR = 'starlark/src/eval/compiler/compr.rs'
 BCSTMT = 'starlark/src/eval/bc/compiler/stmt.rs'
 LISTM = 'starlark/src/values/types/list/methods.rs'
+LISTV = 'starlark/src/values/types/list/value.rs'
 AMOD = 'starlark/src/eval/bc/compiler/assign_modify.rs'
 BCCALL = 'starlark/src/eval/bc/compiler/call.rs'
 VECMAP = 'starlark_map/src/vec_map.rs'
@@ -191,6 +192,9 @@ MUTANTS = [
     ('strindex', STRT, 'let ind = CharIndex(i.unsigned_abs() as usize);', 'let ind = CharIndex((-i) as usize);', 'at'),
     ('strindex', STRT, 'Ok(heap.alloc(self.as_bytes()[(len_chars - ind).0] as char))', 'Ok(heap.alloc(self.as_bytes()[len_chars.0] as char))', 'at'),
     ('strindex', STRT, 'if ind > len_chars {', 'if ind >= len_chars {', 'C01.str.at.ok_iff'),
+    ('seqindex', LISTV, '        let i = convert_index(index, self.0.content().len() as i32)? as usize;\n        Ok(self.0.content()[i])', '        let i = convert_index(index, self.0.content().len() as i32 - 1)? as usize;\n        Ok(self.0.content()[i])', 'C01.list.at'),
+    ('seqindex', LISTV, '        let i = convert_index(index, self.0.content().len() as i32)? as usize;\n        Ok(self.0.content()[i])', '        let i = convert_index(index, self.0.content().len() as i32)? as usize;\n        Ok(self.0.content()[self.0.content().len() - 1 - i])', 'C01.list.at.elem'),
+    ('seqindex', LISTV, '    fn length(&self) -> crate::Result<i32> {\n        Ok(self.0.content().len() as i32)', '    fn length(&self) -> crate::Result<i32> {\n        Ok(self.0.content().len() as i32 + 1)', 'length'),
     ('strindex', STRT, 'Ok(fast_string::len(self).0 as i32)', 'Ok(self.len() as i32)', 'C01.str.length'),
     ('strindex', STRT, 'Ok(heap.alloc(fast_string::at(self, len_chars - ind).unwrap()))', 'Ok(heap.alloc(fast_string::at(self, CharIndex(ind.0 - 1)).unwrap()))', 'C01.str.at.char'),
     ('strindex', STRT, 'Ok(heap.alloc(self.as_bytes()[(len_chars - ind).0] as char))', 'Ok(heap.alloc(self.as_bytes()[ind.0 - 1] as char))', 'C01.str.at.char'),
